@@ -115,7 +115,9 @@ class IORecord:
     maxsize = len(
         str(2**31 - 1)
     )  # limit to max short even though Python3 can go bigger.
-    _intFormat = " {{:>+{}}}".format(maxsize)
+    # right-justified in the whole fixed-width field: the leading space is padding, so that a signed
+    # 10-digit value still fits the field
+    _intFormat = "{{:>+{}}}".format(maxsize + 1)
     _intLength = maxsize + 1
 
     _floatSize = struct.calcsize("f")
